@@ -838,13 +838,7 @@ impl Scaler for FreeTypeScaler<'_> {
                         // and works better than the one documented by Apple.
                         // https://github.com/freetype/freetype/blob/b1c90733ee6a04882b133101d61b12e352eeb290/src/truetype/ttgload.c#L1259
                         fn hypot(a: F26Dot6, b: F26Dot6) -> Fixed {
-                            let a = a.to_bits().abs();
-                            let b = b.to_bits().abs();
-                            Fixed::from_bits(if a > b {
-                                a + ((3 * b) >> 3)
-                            } else {
-                                b + ((3 * a) >> 3)
-                            })
+                            Fixed::from_bits(fixed_vector_length(a.to_bits(), b.to_bits()))
                         }
                         // FreeType uses a fixed point multiplication here.
                         x = (Fixed::from_bits(x) * hypot(xx, xy)).to_bits();
@@ -1277,6 +1271,65 @@ impl Scaler for HarfBuzzScaler<'_> {
 /// Magnitude of the vector (x, y)
 fn hypot(x: f32, y: f32) -> f32 {
     x.hypot(y)
+}
+
+/// Magnitude of the fixed point vector (x, y).
+///
+/// This is a port of FreeType's `FT_Hypot` which is implemented as
+/// `FT_Vector_Length` using CORDIC iterations.
+///
+/// See <https://gitlab.freedesktop.org/freetype/freetype/-/blob/57617782464411201ce7bbc93b086c1b4d7d84a5/src/base/fttrigon.c#L417>
+fn fixed_vector_length(x: i32, y: i32) -> i32 {
+    // The CORDIC shrink factor 0.858785336480436 * 2^32
+    const TRIG_SCALE: u64 = 0xDBD95B16;
+    // The highest bit in overflow-safe vector components
+    const TRIG_SAFE_MSB: i32 = 29;
+    const TRIG_MAX_ITERS: i32 = 23;
+    // Handle trivial cases
+    if x == 0 {
+        return y.wrapping_abs();
+    } else if y == 0 {
+        return x.wrapping_abs();
+    }
+    // Normalize so that the most significant bit of the larger component
+    // is at TRIG_SAFE_MSB (ft_trig_prenorm)
+    let msb = 31 - (x.unsigned_abs() | y.unsigned_abs()).leading_zeros() as i32;
+    let shift = TRIG_SAFE_MSB - msb;
+    let (mut x, mut y) = if shift >= 0 {
+        (x << shift, y << shift)
+    } else {
+        (x >> -shift, y >> -shift)
+    };
+    // Rotate the vector into the [-PI/4, PI/4] sector (ft_trig_pseudo_polarize)
+    if y > x {
+        if y > -x {
+            (x, y) = (y, -x);
+        } else {
+            (x, y) = (-x, -y);
+        }
+    } else if y < -x {
+        (x, y) = (-y, x);
+    }
+    // Pseudorotations, with right shifts
+    let mut b = 1;
+    for i in 1..TRIG_MAX_ITERS {
+        let (dx, dy) = ((y + b) >> i, (x + b) >> i);
+        if y > 0 {
+            x += dx;
+            y -= dy;
+        } else {
+            x -= dx;
+            y += dy;
+        }
+        b <<= 1;
+    }
+    // Multiply by the CORDIC shrink factor (ft_trig_downscale)
+    let len = ((x.unsigned_abs() as u64 * TRIG_SCALE + 0x40000000) >> 32) as i32;
+    if shift > 0 {
+        (len + (1 << (shift - 1))) >> shift
+    } else {
+        ((len as u32) << -shift) as i32
+    }
 }
 
 fn map_point(transform: [f32; 6], p: Point<f32>) -> Point<f32> {
